@@ -60,6 +60,17 @@ func C18(c *Ctx) {
 	for _, g := range c05Strata() {
 		add(g, false, nil)
 	}
+	// labelled failures: recovery operators with one and several labels, throws from called rules
+	for i, g := range c14Strata() {
+		if i%3 == 0 {
+			add(g, false, nil)
+		} else if i%3 == 1 {
+			add(g, false, []string{"-optimize-parser"})
+		}
+	}
+	for i := 0; i < nEach; i++ {
+		add(gast.Generate(rng, throwProfile()), false, nil)
+	}
 	// Unicode classes on non-Latin-1 input (range tables shared by all parses)
 	ucl := func(n ...string) *gast.Expr { return gast.Cl(&gast.ClassSpec{UClasses: n}) }
 	words := &gast.Grammar{Rules: []*gast.Rule{
@@ -232,6 +243,10 @@ func C18(c *Ctx) {
 				c.CovAdd("cases_through_parsereader", sum.ReaderCases)
 				if sum.Unstable > 0 {
 					c.Report(&Violation{Class: "C18/result-changed-later", Summary: fmt.Sprintf("%d results returned by ParseReader changed when ParseReader was called again (the value is not the caller's own): %s", sum.Unstable, strings.Join(sum.UnstableSample, " || ")),
+						Extra: map[string]any{"summary": sum}})
+				}
+				if sum.Touched > 0 {
+					c.Report(&Violation{Class: "C18/caller-buffer-written", Summary: fmt.Sprintf("%d parses wrote to the caller's buffer (the input bytes or the spare capacity behind them, which other goroutines may be reading): %s", sum.Touched, strings.Join(sum.TouchedSample, " || ")),
 						Extra: map[string]any{"summary": sum}})
 				}
 				if sum.Mismatches > 0 {
